@@ -189,6 +189,7 @@ Definition op_ok (S : tree) (o : op) : bool :=
       forallb (fun kv => match snd kv with Leaf _ => leaf_in S (kp ++ [fst kv]) | Node _ => false end) kvs
   | LoadDefaults t | LoadOverrides t | LoadCollection t => level_okb S t
   | LoadShellEnv _ => true
+  | View _ _ | EqD _ _ _ | GetM _ _ _ _ => true
   | _ => false
   end.
 
@@ -522,6 +523,16 @@ Proof.
       * unfold merged. rewrite Er2. simpl. split; [exact Hg2 | intros e H; discriminate].
     + simpl. split; [exact Hg1|]. intros e' H. inversion H; subst e'.
       destruct (load_err_kind _ _ _ _ Wc1 El) as [ -> | [ -> | -> ] ]; auto 10.
+  - (* View *)
+    destruct (nav fl (c_cache c) kp) as [d|e] eqn:Hn; simpl; apply Hsame;
+      [intros e H; discriminate | eapply nav_err_benign; eassumption].
+  - (* EqD *)
+    destruct (nav fl (c_cache c) kp) as [d|e] eqn:Hn; simpl; apply Hsame;
+      [intros e H; discriminate | eapply nav_err_benign; eassumption].
+  - (* GetM *)
+    destruct (nav fl (c_cache c) kp) as [d|e] eqn:Hn; simpl.
+    + destruct (get k d); simpl; apply Hsame; intros e H; discriminate.
+    + apply Hsame. eapply nav_err_benign; eassumption.
 Qed.
 
 (** * Histories *)
